@@ -2,6 +2,7 @@ use crate::runner::Monitor;
 
 pub mod c10;
 pub mod c12;
+pub mod c13;
 pub mod c14;
 pub mod c16;
 pub mod c17;
@@ -12,6 +13,7 @@ pub fn by_id(id: &str) -> Option<Box<dyn Monitor>> {
     Some(match id {
         "C10" => Box::new(c10::C10::new()),
         "C12" => Box::new(c12::C12),
+        "C13" => Box::new(c13::C13),
         "C14" => Box::new(c14::C14),
         "C17" => Box::new(c17::C17),
         "C18" => Box::new(c18::C18::new()),
